@@ -20,7 +20,7 @@ VERIF = os.path.dirname(os.path.dirname(os.path.dirname(os.path.abspath(__file__
 HARNESS = os.path.join(VERIF, "vf", "ch", "c20_harness.py")
 WORK = os.path.join(VERIF, ".work", "c20")
 PY = os.path.join(VERIF, ".venv", "bin", "python")
-PARAMS = ["nrep", "ngen", "loginit", "preinit", "t_max"]
+PARAMS = ["nrep", "ngen", "loginit", "preinit", "t_max", "empty"]
 
 
 class CrossHairOb:
@@ -74,7 +74,7 @@ class CrossHairOb:
                 if "Confirmed over all paths" in out:
                     res["stats"]["prove_unsat"] += 1
                     # number of paths = bounded by the finite domain
-                    res["paths"] = (nmax + 1) * (nmax + 1) * 4 * (thi - tlo + 1)
+                    res["paths"] = (nmax + 1) * (nmax + 1) * 8 * (thi - tlo + 1)
                     res["stats"]["decisions"] = res["paths"]
                     res["reached_assertions"] = res["paths"]
                     continue
@@ -98,7 +98,8 @@ class CrossHairOb:
                     break
         if res["status"] == "ok":
             # concrete validation runs of the harness against the real class
-            for args in (dict(nrep=2, ngen=2, loginit=True, preinit=False, t_max=1), dict(nrep=1, ngen=nmax, loginit=False, preinit=True, t_max=tlo)):
+            for args in (dict(nrep=2, ngen=2, loginit=True, preinit=False, t_max=1), dict(nrep=1, ngen=nmax, loginit=False, preinit=True, t_max=tlo),
+                         dict(nrep=2, ngen=1, loginit=True, preinit=True, t_max=1, empty=True)):
                 a = dict(args)
                 a.update(dict(zip(("mut_psel", "mut_mate", "mut_eval", "mut_ssel"), self.muts)))
                 bad, info = replay_args(a)
